@@ -894,3 +894,6 @@ def _strable(a):
         return True
     except Exception:  # noqa: BLE001
         return False
+
+
+RULE = RULE + '  Later additions: wide (9-1404 operands) and deep (3-100 levels) nodes differing in one leaf of equal hash; keyword calls in every insertion order; 20 library helpers applied to held objects; fresh legacy classes whose first hash / == fails and is caught.'
